@@ -17,6 +17,7 @@ REPO = os.environ.get("PIKA_REPO", "/repo")
 BUILD = os.path.join(REPO, "_build")
 PIKAFACTS = os.path.join(VERIF, "bin", "pikafacts")
 CACHE = os.path.join(VERIF, ".cache")
+KNOWN = os.path.join(VERIF, "known_functions.txt")
 LIBS = os.path.join(REPO, "libs", "pika")
 
 DEFAULT_DEFINES = ["-DFMT_SHARED", "-DPIKA_EXPORTS", "-DSPDLOG_COMPILED_LIB", "-DSPDLOG_FMT_EXTERNAL",
@@ -110,7 +111,7 @@ def extract(tu, sels, recs=(), extra=(), roots=None, overlay=None, calls=()):
     roots = roots or [REPO + "/", VERIF + "/drivers/"]
     os.makedirs(CACHE, exist_ok=True)
     tool_h = _file_hash(PIKAFACTS)
-    key = _sha(json.dumps([tu, flags, sorted(sels), sorted(recs), roots, tool_h, sorted(calls),
+    key = _sha(json.dumps([tu, flags, sorted(sels), sorted(recs), roots, tool_h, sorted(calls), _file_hash(KNOWN) if os.path.exists(KNOWN) else "",
                            sorted((k, _file_hash(v)) for k, v in (overlay or {}).items())]))
     out = os.path.join(CACHE, key + ".json")
     dep = os.path.join(CACHE, key + ".deps")
@@ -129,6 +130,8 @@ def extract(tu, sels, recs=(), extra=(), roots=None, overlay=None, calls=()):
     # temporary file and publish it atomically, never delete a published file
     tmp = "%s.%d.tmp" % (out, os.getpid())
     cmd = [PIKAFACTS, "--out", tmp]
+    if os.path.exists(KNOWN):
+        cmd += ["--known", KNOWN]
     for r in roots:
         cmd += ["--root", r]
     for s in sels:
@@ -534,6 +537,9 @@ class Fn:
 
 class Facts:
     def __init__(self, raw):
+        if not os.environ.get("VERIF_NO_INLINE"):
+            from . import inline
+            raw = inline.normalise(raw)
         self.raw = raw
         self.tu = raw.get("tu")
         self.fns = [Fn(f, self) for f in raw.get("functions", [])]
